@@ -329,6 +329,7 @@ class RankEnv:
             except ValueError:
                 rec['bad_rejected'] = True
             self.sim.probe('bad_state_load_tried')
+        log0 = len(self.sim.log)
         with warnings.catch_warnings(record=True) as wl:
             warnings.simplefilter('always')
             try:
@@ -342,6 +343,11 @@ class RankEnv:
         rec['load_warnings'] = [str(w.message) for w in wl]
         rec['compute_inverses'] = ci
         rec['saved_steps'] = saved['steps']
+        me = self.rank
+        rec['traffic'] = [
+            e for e in self.sim.log[log0:]
+            if len(e) > 8 and e[1] == me and e[8] == 'kfac'
+        ]
         # (i) exact round trip, read back through the public API
         after = self.pre.state_dict()
         if after['steps'] != saved['steps'] or self.pre.steps != saved[
@@ -402,7 +408,8 @@ class RankEnv:
         rec['it'] = it
         rec['steps_before'] = pre.steps
         log0 = len(self.sim.log)
-        if plan.get('loss_scaling'):
+        scaling = bool(plan.get('loss_scaling'))
+        if scaling:
             self.loss_scale = float(2 ** (3 + it % 4))
         for r in self.hp_objs.values():
             r.calls.clear()
@@ -415,10 +422,30 @@ class RankEnv:
         rec['caps'] = self.caps
         self.capturing = True
         vranks = range(self.emulate) if self.emulate else [self.rank]
+        unscaled: dict[int, torch.Tensor] = {}
+        scales: list[float] = []
         for vr in vranks:
             for micro in range(acc):
+                if scaling:
+                    # a callable scaler may change at any time: every
+                    # micro-batch runs under its own loss scale and is
+                    # unscaled with it (C04: "divided by the loss scale")
+                    self.loss_scale = float(2 ** (3 + (it + 2 * micro
+                                                        + vr) % 5))
+                    scales.append(self.loss_scale)
                 out = self._fwd_bwd(model, it, vr, micro, acc,
                                     op.get('zero', False))
+                if scaling:
+                    with torch.no_grad():
+                        for p in model.parameters():
+                            if p.grad is None:
+                                continue
+                            g = p.grad / self.loss_scale
+                            if id(p) in unscaled:
+                                unscaled[id(p)] += g
+                            else:
+                                unscaled[id(p)] = g
+                            p.grad.zero_()
                 if op.get('reset_after') == micro and not self.emulate:
                     pre.reset_batch()
                     rec['reset_after'] = micro
@@ -430,7 +457,29 @@ class RankEnv:
                                          op.get('zero', False))
                     if not torch.equal(out, out2):
                         self.bad('C10.twin_output_differs', it=it)
+                    if scaling:
+                        with torch.no_grad():
+                            for q in self.twin.parameters():
+                                if q.grad is None:
+                                    continue
+                                g = q.grad / self.loss_scale
+                                if id(q) in unscaled:
+                                    unscaled[id(q)] += g
+                                else:
+                                    unscaled[id(q)] = g
+                                q.grad.zero_()
         self.capturing = False
+        if scaling:
+            with torch.no_grad():
+                for mdl in (model, self.twin):
+                    if mdl is None:
+                        continue
+                    for p in mdl.parameters():
+                        if id(p) in unscaled:
+                            p.grad.copy_(unscaled[id(p)])
+            rec['loss_scales'] = scales
+            # the scaler moves on before step() (legal for a callable)
+            self.loss_scale = float(2 ** (1 + it % 3))
         if self.twin is not None:
             for (n, p), (_, q) in zip(model.named_parameters(),
                                       self.twin.named_parameters()):
@@ -441,9 +490,6 @@ class RankEnv:
             self.sim.probe('twin_compared')
         params = [p for p in model.parameters() if p.grad is not None]
         with torch.no_grad():
-            if self.loss_scale is not None:
-                for p in params:
-                    p.grad.div_(self.loss_scale)
             if self.emulate:
                 for p in params:
                     p.grad.div_(self.emulate)
@@ -458,7 +504,7 @@ class RankEnv:
                     p.grad.copy_(flat[o:o + n].view_as(p.grad))
                     o += n
         rec['D'] = {n: models.combined_grad(m) for n, m, _ in self.reg}
-        rec['loss_scale'] = self.loss_scale
+        rec['loss_scale'] = scales if scaling else None
         # ---- C10 snapshot
         reg_params = {id(p) for _, m, _ in self.reg for p in m.parameters()}
         before_state = {k: v.detach().clone()
